@@ -6,6 +6,7 @@ between the two glob languages and are listed in known_findings.json with a
 replayed witness each.  The full statement (for every valid dep5 glob) is false.
 -/
 import ReuseVerif.Lemmas.Dep5
+import ReuseVerif.Lemmas.C17Witness
 
 namespace C17
 open Py Py.Re Spec Model
@@ -78,6 +79,112 @@ theorem C17_final (render : Text → Text) (fs : ConvFs) (d : Text) (hd : fs.dep
   · unfold convertCmd; rw [hd]
   · simp [applyStep]
 
+/-! ### The two exclusions of `dep5Plain` are necessary -/
+
+/-- **Every valid dep5 glob with a `?` wildcard has a path on which the two matchers differ.**
+    The path `dep5Witness d` (each `*` read as nothing, each `?` as `x`, every other character as
+    itself) is matched by python-debian's expression of `d`; the converted glob keeps the `?`, which
+    REUSE.toml reads literally, so every path it matches contains at least one `?` more than the
+    witness does (`glob_reqQ_le`, `reqQ_convert`, `witness_count_q`). -/
+theorem C17_question_always_differs (d : Text) (hv : (dep5Blocks d).isSome = true) (hq : hasQ d = true) :
+    dep5Match d (dep5Witness d) = true ∧ globMatch (convertGlob d) (dep5Witness d) = false := by
+  obtain ⟨bs, hbs⟩ := Option.isSome_iff_exists.mp hv
+  constructor
+  · unfold dep5Match
+    rw [hbs]
+    exact (fullMatch_iff _ _).mpr (dep5Witness_matches d bs hbs)
+  · rw [Bool.eq_false_iff]
+    intro hm
+    unfold globMatch at hm
+    have h1 := glob_reqQ_le (convertGlob d) _ ((fullMatch_iff _ _).mp hm)
+    rw [reqQ_convert] at h1
+    have h2 := witness_count_q d
+    rw [hq] at h2
+    simp only [if_true] at h2
+    omega
+
+/-- **Every glob that starts with an asterisk run followed by `/` (and is plain otherwise) has a path
+    on which the two matchers differ.**  dep5's `*/r` demands a `/` in front of what `r` matches;
+    the converted `**/r` may stand for no directory at all.  The path is the witness of `r`:
+    REUSE.toml matches it (`C17_glob_partial` on `r`), python-debian does not, because every path
+    it matches has one `/` more than the witness (`dep5_reqSlash_le`, `witness_count_slash`). -/
+theorem C17_star_slash_differs (m : Nat) (r : Text) (hr : dep5Plain r = true) :
+    dep5Match ('*' :: (List.replicate m '*' ++ '/' :: r)) (dep5Witness r) = false ∧
+    globMatch (convertGlob ('*' :: (List.replicate m '*' ++ '/' :: r))) (dep5Witness r) = true := by
+  obtain ⟨bs, hbs, hiff⟩ := dep5_equiv r hr
+  have hw := dep5Witness_matches r bs hbs
+  constructor
+  · rw [Bool.eq_false_iff]
+    intro hm
+    -- the dep5 expression of the whole glob
+    have hb : dep5Blocks ('*' :: (List.replicate m '*' ++ '/' :: r)) =
+        some (List.replicate (m + 1) (.star anyChar) ++ .chr '/' :: bs) := by
+      have h1 := dep5Blocks_stars (m + 1) ('/' :: r)
+      rw [List.replicate_succ, List.cons_append] at h1
+      rw [h1, dep5Blocks_lit r (by decide) (by decide) (by decide), hbs]
+      simp [List.replicate_succ]
+    unfold dep5Match at hm
+    rw [hb] at hm
+    have h1 := dep5_reqSlash_le _ _ hb _ ((fullMatch_iff _ _).mp hm)
+    have h2 := witness_count_slash r bs hbs
+    have h3 : reqSlash ('*' :: (List.replicate m '*' ++ '/' :: r)) = reqSlash r + 1 := by
+      have : ∀ k, reqSlash (List.replicate k '*' ++ '/' :: r) = reqSlash r + 1 := by
+        intro k
+        induction k with
+        | zero => simp [reqSlash_cons r (show ('/' : Char) ≠ '\\' from by decide)]; omega
+        | succ k ih => rw [List.replicate_succ, List.cons_append, reqSlash_cons _ (by decide), ih]; simp
+      have := this (m + 1)
+      rwa [List.replicate_succ, List.cons_append] at this
+    omega
+  · unfold globMatch
+    rw [fullMatch_iff]
+    have hstar : ('/' :: r).head? ≠ some '*' := by simp
+    rw [convert_star m ('/' :: r) hstar, convert_lit r (by decide) (by decide)]
+    have hk : ∃ k, (if m = 0 then 2 else m + 1) = k + 2 := by
+      by_cases hm : m = 0
+      · exact ⟨0, by simp [hm]⟩
+      · exact ⟨m - 1, by simp [hm]; omega⟩
+    obtain ⟨k, hk⟩ := hk
+    rw [hk, List.replicate_succ, List.cons_append, translate_starDir (k + 1) _ (by omega), matches_seq_cons]
+    exact ⟨[], _, rfl, matches_dirsOpt.mpr (.inl rfl), (hiff _).mp hw⟩
+
+/-! ### Paragraph order -/
+
+/-- The converted table list is the paragraph list in the same order: as many tables as
+    paragraphs, the `i`-th table carries the payload of the `i`-th paragraph and the converted
+    globs of the `i`-th paragraph, in their order. -/
+theorem C17_tables_order {α} (ps : List (Para α)) :
+    (convertParas ps).length = ps.length ∧
+    (convertParas ps).map (·.info) = ps.map (·.info) ∧
+    ∀ i : Nat, ((convertParas ps)[i]?).map (fun q : Para α => q.globs) =
+      (ps[i]?).map (fun q : Para α => q.globs.map convertGlob) := by
+  unfold convertParas
+  refine ⟨by simp, by simp [List.map_map, Function.comp_def], ?_⟩
+  intro i
+  rw [List.getElem?_map]
+  cases ps[i]? <;> rfl
+
+/-- Last match wins on both sides, for any number of paragraphs, under a hypothesis on the given
+    path only: if every paragraph matches `p` before the conversion exactly when its table does
+    after it (true for all paths when the globs are plain — `C17_paragraph` —, and true for many
+    paths of non-plain globs), the same payload is selected. -/
+theorem C17_last_wins_pathwise {α} (ps : List (Para α)) (p : Text)
+    (h : ∀ q ∈ ps, q.globs.any (dep5Match · p) = itemMatches (q.globs.map convertGlob) p) :
+    dep5Find ps p = tomlFind (convertParas ps) p := by
+  unfold dep5Find tomlFind convertParas
+  rw [← List.map_reverse]
+  have h' : ∀ q ∈ ps.reverse, q.globs.any (dep5Match · p) = itemMatches (q.globs.map convertGlob) p :=
+    fun q hq => h q (List.mem_reverse.mp hq)
+  generalize ps.reverse = l at h'
+  induction l with
+  | nil => rfl
+  | cons q l ih =>
+    simp only [List.map_cons, List.find?_cons]
+    rw [h' q (by simp)]
+    cases itemMatches (q.globs.map convertGlob) p
+    · exact ih (fun q' hq' => h' q' (by simp [hq']))
+    · rfl
+
 -- Non-vacuity.
 example : dep5Plain "src/*.c".toList = true := by
   rw [show "src/*.c".toList = ['s', 'r', 'c', '/', '*', '.', 'c'] from rfl]
@@ -85,5 +192,7 @@ example : dep5Plain "src/*.c".toList = true := by
 example : dep5Plain "a?".toList = false := by
   rw [show "a?".toList = ['a', '?'] from rfl]
   simp [dep5Plain]
+example : hasQ "src/?.c".toList = true ∧ dep5Witness "src/?.c".toList = "src/x.c".toList ∧
+    hasQ "a\\?".toList = false ∧ dep5Witness "*/doc/*.md".toList = "/doc/.md".toList := by decide
 
 end C17
